@@ -82,6 +82,9 @@ class AlgebraicReductionRule(AbstractNaryRule):
                     new_ops = rule.apply(left, right)
                 except NoReduction:
                     continue
+                # a rewrite may produce an identity (e.g. block-wise products): discard it right away,
+                # otherwise it shields the reducible pair formed by its neighbours
+                new_ops = identity_rule.apply(new_ops)
                 operands[index : index + 2] = new_ops
 
                 # if the rule produces a HomothetyOperator, we deal with it first
